@@ -46,10 +46,14 @@ VOCAB = [
     '<a b c>', '< a>', '<>', '(k v', '', '# c', '<a', 'a>', '</>', '<//>',
     '　',
 ]
+# directive words that happen to be names the parser could dispatch on dynamically ("exactly so
+# spelled ... the only directives"): fixed list, so the input space does not depend on the tree
+VOCAB += ['%key_value k v', '%directive define a b', '%key_value', '%section a', '%define_ a b', '%defines a b',
+          '%Include f', '%import_ p', '%handle_define a b']
 VOCAB_SMALL = ['<a>', '<A b>', '<b>', '<a/ >', '</a>', '</A >', '</b>',
                '<a/>', '<a B/>', 'k v', 'k', 'k $$x', 'a<b> </a>',
                '%import p', '%define a x', '%define a $a', '%define b $$',
-               '%include f', '', '<a b c>']
+               '%include f', '', '<a b c>', '%key_value k v', '%directive define a b']
 
 
 # -------------------------------------------------------------------------
